@@ -95,6 +95,8 @@ struct MacroCase {
     forward_global: bool,
     local_label_used: bool,
     expr_arg: bool,
+    /// v3: text appended to the macro program / to the inlined program (a macro that hands a STRING through)
+    tail: (String, String),
 }
 
 fn gen_macro_case(t: &mut Tape) -> MacroCase {
@@ -233,7 +235,17 @@ fn gen_macro_case(t: &mut Tape) -> MacroCase {
         let la = if t.chance(1, 4) { "\n    labelalign = 16" } else { "" };
         plain.insert(0, (0usize, format!("#bankdef zb\n{{\n    addr = {}\n    outp = 0{}\n}}", a, la)));
     }
-    MacroCase { isa, macros, calls, plain, globals, forward_global: true, local_label_used, expr_arg }
+    // v3: a string literal (with runs of blanks, a tab, an escaped quote) handed textually through an asm block
+    let mut tail = (String::new(), String::new());
+    if crate::engine::gen_version() >= 3 && t.chance(1, 6) {
+        let lit = *t.pick(&["\"a  b\"", "\"x\ty\"", "\"  lead\"", "\"tail   \"", "\"a b\"", "\"q\\\"  r\"", "utf16le(\"a  b\")", "\"a  b\" @ 0x00"]);
+        let rules = "#ruledef strq\n{\n    emitq {s} => 0x02 @ s\n    sayq {s} => asm { emitq {s} }\n    sayq2 {s} => asm\n    {\n        sayq {s}\n        emitq {s}\n    }\n}\n";
+        let twice = t.flip();
+        tail.0 = format!("{}{} {}\n", rules, if twice { "sayq2" } else { "sayq" }, lit);
+        tail.1 = format!("{}emitq {}\n{}", rules, lit, if twice { format!("emitq {}\n", lit) } else { String::new() });
+        expr_arg = true;
+    }
+    MacroCase { isa, macros, calls, plain, globals, forward_global: true, local_label_used, expr_arg, tail }
 }
 
 fn render_macro_case(c: &MacroCase, inlined: bool) -> String {
@@ -281,6 +293,7 @@ fn render_macro_case(c: &MacroCase, inlined: bool) -> String {
             s.push('\n');
         }
     }
+    s.push_str(if inlined { &c.tail.1 } else { &c.tail.0 });
     s
 }
 
